@@ -48,6 +48,8 @@ macro_rules! place {
                     let j = sym_index(MAX_BORROWS);
                     if j < bs.n && bs.b[j].addr != COPIED {
                         assert!(bs.b[j].addr % bs.b[j].align == 0, "[C12/ref.aligned] no returned reference is misaligned for its type");
+                        assert!(bs.b[j].addr % bs.b[j].align == 0, "[C03/borrow.aligned.placed] a borrowed part is aligned for its element type wherever the buffer is placed");
+                        assert!(bs.b[j].addr >= base + k && bs.b[j].addr + bs.b[j].bytes <= base + k + n, "[C03/borrow.inside.placed] a borrowed part covers only bytes of the buffer wherever it is placed");
                     }
                 }
                 Err(deser::Error::AlignmentError) => {
@@ -70,15 +72,15 @@ macro_rules! cover_mis {
 }
 pub(crate) use cover_mis;
 
-// @h place_vec_u32 props=C12 tier=quick kind=bounded bound="len<=2; residues 0..15" vars="v:Vec<u32>, base residue k<16" fns="deser/slice_with_pos.rs:align,deser/helpers.rs:deserialize_eps_slice_zero"
+// @h place_vec_u32 props=C12,C03 tier=quick kind=bounded bound="len<=2; residues 0..15" vars="v:Vec<u32>, base residue k<16" fns="deser/slice_with_pos.rs:align,deser/helpers.rs:deserialize_eps_slice_zero"
 place!(place_vec_u32, Vec<u32>, 2, 32, 17, 16, blocks);
-// @h place_z8 props=C12,C05 tier=quick kind=complete vars="v:Z8, base residue k<16" fns="deser/slice_with_pos.rs:align,deser/helpers.rs:deserialize_eps_zero"
+// @h place_z8 props=C12,C03,C05 tier=quick kind=complete vars="v:Z8, base residue k<16" fns="deser/slice_with_pos.rs:align,deser/helpers.rs:deserialize_eps_zero"
 place!(place_z8, Z8, 0, 32, 17, 16, blocks);
-// @h place_opt_vec_u16 props=C12 tier=quick kind=bounded bound="len<=2; residues 0..15" vars="v:Option<Vec<u16>> (None has no block), base residue k<16" fns="deser/slice_with_pos.rs:align"
+// @h place_opt_vec_u16 props=C12,C03 tier=quick kind=bounded bound="len<=2; residues 0..15" vars="v:Option<Vec<u16>> (None has no block), base residue k<16" fns="deser/slice_with_pos.rs:align"
 place!(place_opt_vec_u16, Option<Vec<u16>>, 2, 32, 17, 16, blocks);
-// @h place_string props=C12 tier=quick kind=bounded bound="len<=2 ASCII; residues 0..15" vars="v:String (byte-aligned data only), base residue k<16" fns="impls/string.rs"
+// @h place_string props=C12,C03 tier=quick kind=bounded bound="len<=2 ASCII; residues 0..15" vars="v:String (byte-aligned data only), base residue k<16" fns="impls/string.rs"
 place!(place_string, String, 2, 32, 17, 16, bytes);
-// @h place_arr_u64 props=C12 tier=thorough kind=complete vars="v:[u64;2], base residue k<16" fns="impls/array.rs"
+// @h place_arr_u64 props=C12,C03 tier=thorough kind=complete vars="v:[u64;2], base residue k<16" fns="impls/array.rs"
 place!(place_arr_u64, [u64; 2], 0, 32, 17, 16, blocks);
-// @h place_z32_128 props=C12,C05 tier=thorough kind=complete vars="v:Z32 (unit 16), base residue k<128" fns="deser/slice_with_pos.rs:align"
+// @h place_z32_128 props=C12,C03,C05 tier=thorough kind=complete vars="v:Z32 (unit 16), base residue k<128" fns="deser/slice_with_pos.rs:align"
 place!(place_z32_128, Z32, 0, 64, 17, 128, blocks);
